@@ -5,6 +5,7 @@ package main
 
 import (
 	"errors"
+	"fmt"
 	"io"
 	"net"
 	"sync"
@@ -156,11 +157,22 @@ func (d *recDialer) Dial(string) (transport.Conn, error) {
 	} else if s.planGen != nil {
 		plan = s.planGen(k)
 	}
+	// the service has one client at a time: whatever it dialled before has been closed by now
+	s.mu.Lock()
+	for _, old := range s.conns {
+		if !old.isClosed() {
+			s.leaks = append(s.leaks, fmt.Sprintf("connection-%d-still-open-when-connection-%d-is-dialled", old.idx, k))
+		}
+	}
+	s.mu.Unlock()
 	if plan.refuse {
 		s.ev("dial %d 0", k)
 		return nil, errInjected
 	}
 	c := newMemConn(s, k, plan)
+	s.mu.Lock()
+	s.conns = append(s.conns, c)
+	s.mu.Unlock()
 	s.ev("dial %d 1", k)
 	go c.peer()
 	return c, nil
